@@ -139,7 +139,10 @@ def main(argv):
            and 1 <= sum(1 for c in r["clauses"].values() if c["status"] == "unknown") <= 2
            and not any("budget" in c["reason"] for c in r["clauses"].values())
            and not any(c["status"] == "failed" for c in r["clauses"].values())]
-  for i in retry[:8]:
+  t_retry = time.time()
+  for i in retry[:4]:
+    if time.time() - t_retry > (300 if tier == "quick" else 1200):
+      break                      # the retries share one wall-clock budget
     base = cases[i].timeout_ms or (10000 if tier == "quick" else 60000)
     saved = cases[i].timeout_ms
     cases[i].timeout_ms = base * 4
